@@ -100,6 +100,23 @@ class C08(fw.Prop):
                         p = P()
                         yield self.make_case({"cfg": cfg.to_json(), "ops": self.to_awaiting(p) + [p.resp(k) + ["invalid-answer"], ["send", "getReq", 1]],
                                               "tag": "other-apdu"})
+                    # the meter's challenge may be 8..64 bytes as well
+                    for mlen in ((8, 9, 63, 64) if chal_len == 8 else (rng.choice([16, 33, 64]),)):
+                        p = P()
+                        p.mch = bytes((i * 7 + mlen) % 256 for i in range(mlen)).hex()
+                        yield self.make_case({"cfg": cfg.to_json(), "ops": self.to_awaiting(p) + [self.answer(p, p.valid_proof(9), 0, "valid-answer"),
+                                                                                                    ["send", "getReq", 1]], "tag": "meter-challenge-length"})
+                        p = P()
+                        p.mch = bytes((i * 7 + mlen) % 256 for i in range(mlen)).hex()
+                        yield self.make_case({"cfg": cfg.to_json(), "ops": [["send", "aarq", 1], p.resp("aare", (0, 5)), ["send", "getReq", 1], ["hls"]],
+                                              "tag": "meter-challenge-length"})
+                    if chal_len == 8:
+                        # the meter selects HLS-GMAC although the client was configured with another mechanism (or none)
+                        for auth, pw in ((None, None), (1, "3132333435363738"), (2, None)):
+                            c2 = cl.Cfg(ek=ek, ak=ak, suite=suite, auth=auth, password=pw, cic=cic, challenge=chal)
+                            p = PathK(c2, ek, ak)
+                            yield self.make_case({"cfg": c2.to_json(), "ops": [["send", "aarq", 1], p.resp("aare", (0, 5)), ["send", "getReq", 1],
+                                                                               ["send", "setReq", 1]], "tag": "meter-selects-hls"})
                     if chal_len == 8:
                         # single-bit alterations of the valid answer
                         p = P()
